@@ -79,6 +79,29 @@ def main():
                              f"pseudo-inverse solution {want}", PRELUDE + G.SRC + SRC + f"M = np.array({M.tolist()!r}); b = np.array({b.tolist()!r})\n"
                              f"got = SVD(M).lstsq(b, rcond={rcond!r}, sing_val_cutoff={cutoff!r}); want = ref_lstsq(M, b, {1e-14 if rcond is None else rcond!r}, {cutoff!r})\n"
                              "print(got, want)\nassert np.allclose(got, want, rtol=1e-7, atol=1e-9 * max(1.0, np.max(np.abs(want))))\n", "SVD.lstsq")
+    rac.section("lstsq-matrix-rhs", "a MATRIX of right-hand sides (k columns, k = 1 .. 4, including k equal to the number of kept singular values): "
+                "SVD.lstsq(B) solves every column as SVD.lstsq(B[:, j]) does (the solution of the system column by column), and equals the reference",
+                "every shape 1..4 x 1..4 x k in 1..4 x 2 settings")
+    for m in range(1, 5):
+        for n in range(1, 5):
+            for k in range(1, 5):
+                for rcond, cutoff in ((None, None), (1e-3, 2)):
+                    M = rng.normal(size=(m, n))
+                    B = rng.normal(size=(m, k))
+                    key = f"lstsq-matrix-rhs {m}x{n} k={k} {rcond} {cutoff}"
+                    rac.case(key, sample=dict(shape=(m, n), columns=k, rcond=rcond, cutoff=cutoff))
+                    scr = (PRELUDE + "import numpy as np\n" + SRC + f"M = np.array({M.tolist()!r}); B = np.array({B.tolist()!r})\n"
+                           f"got = SVD(M).lstsq(B, rcond={rcond!r}, sing_val_cutoff={cutoff!r})\n"
+                           f"cols = np.stack([SVD(M).lstsq(B[:, j], rcond={rcond!r}, sing_val_cutoff={cutoff!r}) for j in range({k})], axis=1)\n"
+                           "print(got); print(cols)\nassert got.shape == cols.shape and np.allclose(got, cols, rtol=1e-9, atol=1e-12)\n")
+                    try:
+                        got = SVD(M).lstsq(B, rcond=rcond, sing_val_cutoff=cutoff)
+                        cols = np.stack([SVD(M).lstsq(B[:, j], rcond=rcond, sing_val_cutoff=cutoff) for j in range(k)], axis=1)
+                        if got.shape != cols.shape or not np.allclose(got, cols, rtol=1e-9, atol=1e-12):
+                            rac.fail(key, f"C16 SVD.lstsq on a {m}x{n} matrix with {k} right-hand sides at once (rcond={rcond}, cutoff={cutoff}): {got.tolist()} "
+                                     f"differs from solving the columns one at a time {cols.tolist()}", scr, "SVD.lstsq")
+                    except Exception as ex:      # noqa
+                        rac.fail(key, f"C16 {key}: {type(ex).__name__}: {ex}", scr, "SVD.lstsq")
     rac.section("lstsq-reuse", "ONE SVD object asked several times with different (rcond, sing_val_cutoff) settings, in every order of three "
                 "settings: each answer equals the reference for ITS settings (nothing remembered from an earlier call)", "12 matrices x 6 orders")
     settings = [(None, None), (None, 1), (1e-2, 2), (0.5, None), (1e-12, 1)]
